@@ -986,8 +986,11 @@ def f_href_empty(w, r, g):
         return None
     s = unshare(w, e)
     s.url = ""
-    return {"where": ("component" if isinstance(e, Comp) else "units") + "/empty" + ("/resolved" if s.model is not None else ""),
-            "cite": ["IMPORT_HREF_LOCATOR"]}
+    # an import source WITHOUT a locator but WITH a model attached (API only) is outside the model: validateUnits leaves the
+    # epoch of a followed import in the history (push without pop), which becomes observable exactly when a later import's
+    # url is "" (a spurious "cyclic dependencies" issue on top of IMPORT_HREF_LOCATOR); see ValidDefs.validate_units
+    s.model = None
+    return {"where": ("component" if isinstance(e, Comp) else "units") + "/empty", "cite": ["IMPORT_HREF_LOCATOR"]}
 
 
 INVALID_URIS = ["http://[::1", "%zz", "a b", "http://exa mple.org/x", "#a#b", "http://a/%"]
